@@ -13,7 +13,8 @@ core.register("C14", "Props.C14", "theories/Props/C14.vo", ["C14_quiescent", "C1
 core.register("C03", "Props.C03", "theories/Props/C03.vo", [])
 core.register("C05", "Props.C05", "theories/Props/C05.vo", [])
 core.register("C07", "Props.C07", "theories/Props/C07.vo",
-              ["C07_refuted_live", "C07_reads_total_outside_known", "C07_boundary_in_force_is_not_enough"])
+              ["C07_refuted_live", "C07_reads_total_outside_known", "C07_boundary_in_force_is_not_enough",
+               "C07_reads_total_outside_known_L2"])
 
 
 # ------------------------------------------------------------------ running traces
@@ -614,14 +615,24 @@ def run_C14(ctx):
     return core.finish(ctx, proof)
 
 
-def f2_class(case_ops, fields_):
+def f2_class(case_ops, fields_, events=None):
     """finding F2: does the history append a log id that is not above the closing last id
-    of an earlier chunk rotation (or the boundary in force)?"""
-    mx = None
-    for o, r in zip(case_ops, fields_):
+    of an earlier chunk rotation (an eviction boundary in force or still to be installed)?
+    Rotations are seen in stat outputs (closed chunk states, cache boundary) and, in
+    traces, as `c create` events inside a call; the last id at a rotation is bounded from
+    above by the greatest id appended or purged so far (an over-approximation that can
+    only enlarge the class by histories re-appending below an earlier id)."""
+    import re
+    mx = None          # greatest known boundary
+    hi = None          # greatest id appended / purged so far
+    seq = list(zip(case_ops, fields_)) if events is None else events
+    for o, r in seq:
+        if o == "create":
+            if hi is not None:
+                mx = hi if mx is None or hi > mx else mx
+            continue
         if r.startswith("stat ") or r.startswith("ret stat "):
             body = r[r.index("closed=["):]
-            import re
             for m in re.finditer(r"\{(\S+) (\S+) (\S+) (\S+) (\S+)\}", body.split(" open=")[0]):
                 last = m.group(2)
                 if last != "-":
@@ -631,11 +642,18 @@ def f2_class(case_ops, fields_):
             if cm and cm.group(1) != "-":
                 t = tuple(int(x) for x in cm.group(1).split(":"))
                 mx = t if mx is None or t > mx else mx
-        if o.startswith("A ") and (r.startswith("ok ") or r.startswith("ret ok")) and mx is not None:
+        ok = r.startswith("ok ") or r.startswith("ret ok")
+        if o.startswith("A ") and ok:
             t = o.split()[1:]
             for k in range(0, len(t), 3):
-                if (int(t[k]), int(t[k + 1])) <= mx:
+                idk = (int(t[k]), int(t[k + 1]))
+                if mx is not None and idk <= mx:
                     return True
+                hi = idk if hi is None or idk > hi else hi
+        elif o.startswith("P ") and ok:
+            t = o.split()
+            idk = (int(t[1]), int(t[2]))
+            hi = idk if hi is None or idk > hi else hi
     return False
 
 
@@ -687,12 +705,25 @@ def run_C07(ctx):
         if l in ("hang", "harness-panic") or any(isinstance(w, tuple) for w in ws):
             continue
         ev = [e.strip() for e in l.split(" ; ")]
-        calls = [(ev[i][7:], ev[i + 1 + [j for j, e in enumerate(ev[i + 1:]) if e.startswith("c ret ")][0]][6:])
-                 for i, e in enumerate(ev) if e.startswith("c call ")]
-        for k, (o, r) in enumerate(calls):
+        # calls with their results, and chunk creations inside calls, in order
+        seqev, cur = [], None
+        for e in ev:
+            if e.startswith("c call "):
+                cur = e[7:]
+            elif e.startswith("c ret ") and cur is not None:
+                seqev.append((cur, e[2:]))
+                cur = None
+            elif e.startswith("c create ") and cur is not None:
+                # a rotation inside a multi-entry append: entries appended so far by this call count
+                t = cur.split()
+                if t[0] == "A":
+                    seqev.append(("A " + " ".join(t[1:4]), "ret ok"))
+                seqev.append(("create", ""))
+        calls = [(o, r[4:] if r.startswith("ret ") else r) for o, r in seqev if o != "create"]
+        for k, (o, r) in enumerate(seqev):
             if (o.startswith("R ") or o == "D") and ("err:" in r or "panic" in r):
                 rp = dict(kind="trace", case=c[:4000], op=o, observed=r[:400], trace=l[:5000])
-                if f2_class([x for x, _ in calls[:k]], [y for _, y in calls[:k]]):
+                if f2_class(None, None, events=seqev[:k]):
                     rp["class"] = "F2-reappended-id-not-above-eviction-boundary"
                 bad += 1
                 ctx.fail("oracle", "C07 oracle: a read of a live entry failed while the worker was at some position: " + r[:200], rp)
